@@ -55,7 +55,8 @@ class Prop:
             args.append("-big")
         files, meta = self._run_go(args, self.dir)
         self.shards = meta["shards"]
-        self.extra_coverage = {"discarded_scenarios": meta.get("discarded", 0),
+        self.extra_coverage = {"discarded_scenarios": meta.get("discarded", 0), "crashed_scenarios": meta.get("crashed", 0),
+                               "partial_scenarios": sum(1 for c in meta["cases"] if c.get("partial")),
                                "pad_pairs": sum(len(c.get("lens") or []) for c in meta["cases"] if c.get("kind") == "pad")}
         return files, meta["cases"]
 
@@ -85,6 +86,8 @@ class Prop:
         outs = vlib.run_case_files(files)
         self.last_rerun = meta["cases"]
         fs = self._fails(meta["shards"], files, outs)
+        # a re-run the harness discarded (did not settle, timing margins missed) is not a verdict
+        fs = [f for f in fs if not meta["cases"][f["case"]].get("discarded")]
         # hand the re-run's observations and failing positions back on the candidate objects, so that
         # signature() of a shrunk case looks at the shrunk case's own failing step
         if len(cases) == len(meta["cases"]):
@@ -96,6 +99,8 @@ class Prop:
         return fs
 
     def shrink_candidates(self, case):
+        if case.get("kind") == "crashed":
+            return
         if case.get("kind") == "pad":
             lens = case["lens"]
             n = len(lens)
@@ -113,7 +118,7 @@ class Prop:
                 chunk //= 2
             return
         evs = case["evs"]
-        # drop TUN / MTU / roam events (handshake, shift and expire events carry the session structure)
+        # drop TUN / MTU / roam events (handshake, shift, expire and down/up events carry the session structure)
         free = [i for i, e in enumerate(evs) if e["k"] in ("tun", "mtu", "roam")]
         chunk = max(len(free) // 2, 1)
         cnt = 0
@@ -146,13 +151,25 @@ class Prop:
             mtu = case["mtu"]
             rel = "mtu0" if mtu == 0 else ("len>mtu" if ln > mtu else ("len<=mtu"))
             return "padding-rule:" + rel
+        if case.get("kind") == "crashed":
+            return "device-crashed"
         evs = case["evs"]
         pos = (case.get("_pos") or {}).get(str(f.get("kind")), f.get("pos", 0))
         k = evs[pos]["k"] if pos < len(evs) else "?"
+        if pos < len(evs):
+            pkts = [base64.b64decode(p or "") for e in evs for p in (e.get("pkts") or [])]
+            for o in evs[pos].get("obs") or []:
+                pl = base64.b64decode(o.get("plain") or "")
+                if o["kind"] == 4 and pl:
+                    for q in pkts:
+                        if q and len(q) <= len(pl) < len(q) + 16 and pl[:len(q)] == q and any(pl[len(q):]):
+                            return "padding-not-zero:after-%s" % k
         kinds = sorted({o["kind"] for o in (evs[pos].get("obs") or [])}) if pos < len(evs) else []
         return "wire-differs-from-property:after-%s:kinds-%s" % (k, "".join(str(x) for x in kinds))
 
     def nontrivial(self, c):
+        if c.get("kind") == "crashed":
+            return False
         if c.get("kind") == "pad":
             return True
         npk = sum(len(e.get("pkts") or []) for e in c["evs"])
@@ -160,6 +177,8 @@ class Prop:
         return data > 0 and npk > data
 
     def sample(self, c):
+        if c.get("kind") == "crashed":
+            return {"gen": c.get("gen"), "crash": (c.get("crash") or "")[-300:]}
         if c.get("kind") == "pad":
             return {"gen": c.get("gen"), "mtu": c["mtu"], "lens": c["lens"][:8], "pads": c["pads"][:8], "pairs": len(c["lens"])}
         out = {"gen": c.get("gen"), "npeers": c["npeers"], "mtu": c["mtu"], "tun_batch": c.get("tun_batch"), "endpoints": c.get("eps"),
@@ -189,7 +208,9 @@ def replay(path):
         case = case[0]
     fs = p.run_cases([case])
     c = p.last_rerun[0]
-    if c.get("kind") == "pad":
+    if c.get("kind") == "crashed":
+        obs = {"crash": c.get("crash")}
+    elif c.get("kind") == "pad":
         obs = {"mtu": c["mtu"], "lens": c["lens"][:20], "pads": c["pads"][:20]}
     else:
         obs = [{"step": i, "k": e["k"], "emitted": [{k: o[k] for k in ("kind", "peer", "sess", "ep", "rcv", "ctr", "len")} for o in e.get("obs") or []]}
